@@ -522,6 +522,13 @@ def shrink(prog: dict[str, Any], failing: Callable[[dict[str, Any]], bool], budg
                 if hoisted:
                     continue
                 # shorten a literal range / drop options / drop keyword arguments
+                if s[0] == "for" and s[5] is not None:
+                    old = s[5]
+                    s[5] = None
+                    if attempt():
+                        changed = True
+                        continue
+                    s[5] = old
                 if s[0] in ("for", "tr"):
                     m = _RANGE.fullmatch(s[2])
                     if m and int(m.group(2)) - int(m.group(1)) >= 2:
@@ -553,6 +560,13 @@ def shrink(prog: dict[str, Any], failing: Callable[[dict[str, Any]], bool], budg
                         continue
                     s[1] = old
                 i += 1
+    # data the minimal program does not mention
+    text = " ".join([emit_body(prog["root"]), *(emit_body(b) for b in prog["partials"].values())])
+    for name in list(prog["data"]):
+        if not re.search(r"\b" + re.escape(name) + r"\b", text):
+            saved_v = prog["data"].pop(name)
+            if not attempt():
+                prog["data"][name] = saved_v
     return prog
 
 
